@@ -63,6 +63,9 @@ Menu == <<
   [c |-> "eval_es_m2",  api |-> "eval_expr",  kind |-> "read",  m |-> 2, ex |-> FALSE],  \* segment register bound to 0x23 in m2
   [c |-> "eval_T_m2",   api |-> "eval_expr",  kind |-> "read",  m |-> 2, ex |-> FALSE],  \* shared tree on m2
   [c |-> "eval_mem_m1", api |-> "eval_expr",  kind |-> "read",  m |-> 1, ex |-> FALSE],  \* @32[esp+4]
+  [c |-> "eval_abs_m1", api |-> "eval_expr",  kind |-> "read",  m |-> 1, ex |-> FALSE],  \* @32[0x2000]: an address that is already evaluated; m1 has no such cell
+  [c |-> "eval_abs_m2", api |-> "eval_expr",  kind |-> "read",  m |-> 2, ex |-> FALSE],  \* the same object on m2, where the cell holds 7
+  [c |-> "new_machine", api |-> "x86_machine", kind |-> "pure", m |-> 0, ex |-> FALSE],  \* builds another machine from the shared initial-register table
   [c |-> "evi_add_m1",  api |-> "eval_instr", kind |-> "write", m |-> 1, ex |-> FALSE],  \* eval_instr(lift(add eax, 1))
   [c |-> "emul_pp_m1",  api |-> "emul_lines", kind |-> "write", m |-> 1, ex |-> FALSE],  \* push eax; pop ebx
   [c |-> "emul_es_m1",  api |-> "emul_lines", kind |-> "write", m |-> 1, ex |-> FALSE],  \* mov eax, es (es absent from m1)
@@ -88,7 +91,7 @@ AllCalls == Menu \o Extra
 (* literals (byte strings, text lines), the shared instruction objects, the shared identifier w, the      *)
 (* shared trees T, U, Q, the program counter constant, the module-level register expressions of ia32_sem, *)
 (* and the one piece of interpreter-wide state every later import of the client depends on: sys.path      *)
-Fixtures == <<"lit", "I_shl", "I_add", "I_push", "I_pop", "I_moves", "I_sete", "I_div", "I_sse", "I_rep67", "I_popad", "K", "w", "T", "U", "Q", "C", "pc", "regs", "sys.path">>
+Fixtures == <<"lit", "I_shl", "I_add", "I_push", "I_pop", "I_moves", "I_sete", "I_div", "I_sse", "I_rep67", "I_popad", "K", "w", "T", "U", "Q", "Q2", "C", "pc", "regs", "sys.path">>
 ASSUME PrintT("MENU " \o ToJson([calls |-> AllCalls, n |-> N, fixtures |-> Fixtures]))
 
 VARIABLES cfg,    \* cache configuration of the process that runs the history
